@@ -180,7 +180,7 @@ class TrackObs(Observer):
             'pmax': pmax, 'codeP': codeP, 'profOK': prof_ok})
 
     # ------------------------------------------------------------------
-    def events(self, tables_ok=1, ptab=None):
+    def events(self, tables_ok=1, ptab=None, pdump=None):
         r = self.r
         n = len(r.assemblies)
         ptot = max([1e-9] + [abs(e['P']) for e in self.raw]
@@ -255,7 +255,13 @@ class TrackObs(Observer):
                    'ptab': ([] if ptab is None else
                             [[-2] * 5] * n if ptab == 'unreadable' else
                             [[-1 if v is None else qt(v) for v in row]
-                             for row in ptab])})
+                             for row in ptab]),
+                   # per-step pressure-drop dump ([] not requested): last row
+                   # [total, F, S, G] and the row with the largest total -
+                   # parts [total, sum]; an unreadable file is [[-2]*6]
+                   'pdump': ([] if pdump is None else
+                             [[-2] * 6] * n if pdump == 'unreadable' else
+                             [[qt(v) for v in row] for row in pdump])})
         cfg = {'nasm': n, 'grids': grids, 'blo': blo, 'bhi': bhi,
                'gravity': int(self.gravity),
                'nslots': self.nslots, 'npin': npin, 'exact': self.exact}
